@@ -36,7 +36,8 @@ ASSUMPTIONS = [
 
 
 def _verify_one(args):
-    qual, src, timeout_ms, hints = args
+    qual, src, timeout_ms, hints = args[:4]
+    only = args[4] if len(args) > 4 else None
     os.environ["VERIF_SRC"] = src
     from pyvc.frontend import Program
     from pyvc.verify import Verifier
@@ -47,18 +48,19 @@ def _verify_one(args):
             prog.add_module(_n, _p)
         V = Verifier(prog, registry.SCHEMA, registry.CONTRACTS, registry.SPEC, timeout_ms=(1200 if "canary_" in qual else timeout_ms))
         V.hints = hints
+        V.only = only
         return V.verify(qual)
     except Exception as e:  # never let an engine crash look like a verdict
         return {"function": qual, "results": {}, "error": "internal: %s\n%s" % (e, traceback.format_exc()), "paths": 0, "vacuity": []}
 
 
-def run_proofs(quals, src, timeout_ms, workers, hints=None):
+def run_proofs(quals, src, timeout_ms, workers, hints=None, only=None):
     out = {}
     hints = hints or {}
     if not quals:
         return out
     with ProcessPoolExecutor(max_workers=min(workers, len(quals))) as ex:
-        futs = {ex.submit(_verify_one, (q, src, timeout_ms, hints)): q for q in quals}
+        futs = {ex.submit(_verify_one, (q, src, timeout_ms, hints, (only or {}).get(q))): q for q in quals}
         for f in as_completed(futs):
             q = futs[f]
             try:
@@ -140,8 +142,13 @@ def main():
             errors[q] = r["error"]
         for oid, res in r["results"].items():
             obl[oid] = dict(res, function=q)
-        if r.get("error") and not r["results"]:
-            obl["%s/engine:unsupported" % q.replace("measured.", "")] = {"status": "undecided", "note": r["error"][:300], "ms": 0, "function": q}
+        if r.get("error"):
+            # the executor stopped (unsupported construct / internal error): the obligations it did not reach are not
+            # generated at all; they are accounted for as one undecided obligation so that the loss is visible
+            fn = q.replace("measured.", "")
+            lost = [oid for oid in ledger.get(prop, {}) if oid.startswith(fn + "/") and oid not in r["results"]]
+            obl["%s/engine:unsupported" % fn] = {"status": "undecided", "ms": 0, "function": q,
+                                                  "note": "%d obligation(s) of the ledger not generated: %s" % (len(lost), r["error"].splitlines()[0][:240])}
         for v in r.get("vacuity", []):
             if not v["requires_satisfiable"]:
                 obl["%s/vacuity:%s" % (q.replace("measured.", ""), v["combo"])] = {"status": "undecided", "note": "contradictory requires", "ms": 0, "function": q}
@@ -171,7 +178,7 @@ def main():
     # A proof that was complete in the committed ledger and is not completed now.  If the source text the VCs
     # were generated from (the function and every callee executed in line) is byte-identical to the ledger's,
     # the VC is the same formula and the miss is solver noise: it only degrades.  If the source CHANGED, the
-    # function is verified again with four times the budget; what still fails then is a failed obligation of
+    # function's failing obligations are tried again with twice the budget; what still fails then is a failed obligation of
     # changed code and is reported (with the stand-in's failing input when there is one).
     base_deps = ledger.get("__deps__", {}).get(prop, {})
     changed_fns = set()
@@ -180,8 +187,16 @@ def main():
         if r["status"] != "discharged" and q and base.get(oid) == "discharged" and q in base_deps and proofs.get(q, {}).get("deps") and proofs[q]["deps"] != base_deps[q]:
             changed_fns.add(q)
     escalated = {}
-    if changed_fns and not a.update_ledger:
-        again = run_proofs(sorted(changed_fns), src, timeout_ms * 4, workers, hints)
+    _nk = [k for f in open_f for k in f.get("native_keys", [])]
+    native_found = bool(native and [f for f in native.get("failures", []) if not any(f["key"].startswith(k) for k in _nk)])
+    if changed_fns and not a.update_ledger and not native_found:
+        # second attempt with twice the budget: only obligations that failed, at most three per function (posts first)
+        only = {}
+        for q in changed_fns:
+            f_ = sorted((oid for oid, r in obl.items() if r.get("function") == q and r["status"] != "discharged" and base.get(oid) == "discharged" and "canary_" not in oid),
+                        key=lambda o: (0 if "/post:" in o else 1, o))
+            only[q] = set(f_[:3])
+        again = run_proofs(sorted(changed_fns), src, timeout_ms * 2, workers, hints, only)
         for q, r2 in again.items():
             for oid, res in r2["results"].items():
                 if oid in obl and obl[oid]["status"] != "discharged":
@@ -189,9 +204,16 @@ def main():
                         continue
                     escalated[oid] = res["status"]
                     if res["status"] == "discharged":
-                        obl[oid] = dict(res, function=q, note="discharged on the second attempt (4x budget)")
+                        obl[oid] = dict(res, function=q, note="discharged on the second attempt (2x budget)")
                     else:
                         obl[oid] = dict(res, function=q, source_changed=True)
+        for q in changed_fns:
+            # obligations beyond the three retried ones share the verdict of the function: changed code whose proof fails
+            if any(obl[o].get("source_changed") for o in only[q] if o in obl):
+                for oid, r in obl.items():
+                    if r.get("function") == q and r["status"] != "discharged" and base.get(oid) == "discharged" and "canary_" not in oid:
+                        r["source_changed"] = True
+
     bad = {oid: r for oid, r in obl.items() if r["status"] != "discharged"}
     known_lines, suppressed_obl, suppressed_native = [], set(), []
     for f in open_f:
@@ -223,7 +245,7 @@ def main():
                 path = os.path.join(rdir, "refuted_%s.py" % "".join(ch if ch.isalnum() else "_" for ch in oid))
                 why = ("obligation %s was discharged on the baseline and is now refuted by the solver" % oid) if r["status"] == "refuted" else \
                       ("obligation %s was discharged on the baseline; the source of %s changed and the obligation is no longer discharged (%s: %s), "
-                       "also not with four times the solver budget" % (oid, r.get("function"), r["status"], (r.get("note") or "")[:200]))
+                       "also not on a second attempt with twice the solver budget" % (oid, r.get("function"), r["status"], (r.get("note") or "")[:200]))
                 body = "print(%r)\nprint(%r)\nsys.exit(1)\n" % (why, (r.get("model") or r.get("note") or "")[:3000])
                 write_replay(path, prop, [oid], "solver counter-model only; no failing input found in the bounded stand-in", body)
                 violations.append("VIOLATION property=%s replay=%s obligation=%s no-failing-input-found" % (prop, path, oid))
